@@ -170,6 +170,9 @@ mod mig {
 
 const N: usize = 5;
 const MAX_TTL: u32 = 200_000;
+/// long-horizon Env for the idle sequences: max_entry_ttl of about one year
+const LONG_TTL: u32 = 6_312_000;
+const DAY: u32 = 17_280;
 const V2_WASM: &[u8] = include_bytes!("/repo/examples/upgradeable/testdata/upgradeable_v2_example.wasm");
 
 #[derive(Clone, Copy, PartialEq, Debug)]
@@ -212,6 +215,7 @@ struct Sim {
     /// migration: 0 = native harness contract, 1 = native v1 example, 2 = prebuilt v2 wasm
     ver: u8,
     hash: Option<BytesN<32>>,
+    max_ttl: u32,
 }
 
 /// constructor parameters; addresses are universe indices
@@ -222,11 +226,12 @@ struct Params {
     init: i128,
     cap: i128,
     ver: u8,
+    max_ttl: u32,
 }
 
 impl Sim {
     fn new(kind: Kind, p: Params, min_temp: u32, start: u32) -> Sim {
-        let e = new_env(start, min_temp, MAX_TTL);
+        let e = new_env(start, min_temp, p.max_ttl);
         let u = Universe::new(&e, N);
         let name = SString::from_str(&e, "Tok");
         let sym = SString::from_str(&e, "TOK");
@@ -249,11 +254,11 @@ impl Sim {
             }
         };
         let hash = if kind == Kind::Mig { Some(e.deployer().upload_contract_wasm(V2_WASM)) } else { None };
-        Sim { e, u, c, kind, now: start, min_temp, ver: p.ver, hash }
+        Sim { e, u, c, kind, now: start, min_temp, ver: p.ver, hash, max_ttl: p.max_ttl }
     }
     fn label(kind: Kind, p: Params, min_temp: u32, start: u32, what: &str) -> String {
         format!(
-            "{} kind={} owner={} mgr={} init={} cap={} ver={} min_temp={} start={}",
+            "{} kind={} owner={} mgr={} init={} cap={} ver={} max_ttl={} min_temp={} start={}",
             what,
             kind.name(),
             p.owner,
@@ -261,6 +266,7 @@ impl Sim {
             p.init,
             p.cap,
             p.ver,
+            p.max_ttl,
             min_temp,
             start
         )
@@ -287,9 +293,10 @@ impl Sim {
         };
         query(&self.e, &self.c, f, args(&self.e, [self.addr(i)])).unwrap()
     }
-    fn cap(&self) -> i128 {
-        // the example has no getter for the cap: read the library's query function in the contract's frame
-        self.e.as_contract(&self.c, || stellar_tokens::fungible::capped::query_cap(&self.e))
+    fn cap(&self) -> Option<i128> {
+        // the example has no getter for the cap: read the library's query function in the contract's
+        // frame (`None` = the cap entry is gone: query_cap panics with CapNotSet)
+        catch(|| self.e.as_contract(&self.c, || stellar_tokens::fungible::capped::query_cap(&self.e)))
     }
     fn counter(&self) -> i32 {
         self.e.as_contract(&self.c, || self.e.storage().instance().get(&ex_pcnt::DataKey::Counter).unwrap())
@@ -333,7 +340,7 @@ impl Sim {
                 let l: String = (0..N).map(|i| if self.listed(i) { '1' } else { '0' }).collect();
                 format!("list={}", l)
             }
-            Kind::Cap => format!("cap={}", self.cap()),
+            Kind::Cap => format!("cap={}", self.cap().map(|c| c.to_string()).unwrap_or("?".into())),
             Kind::Mig => format!("migrating={} data={} wasm={}", self.migrating() as u8, self.mig_data(), self.wasm_flag() as u8),
         }
     }
@@ -449,7 +456,7 @@ impl Sim {
     }
     fn advance(&mut self, t: &mut Trace, n: u32) {
         self.now += n;
-        set_ledger(&self.e, self.now, self.min_temp, MAX_TTL);
+        set_ledger(&self.e, self.now, self.min_temp, self.max_ttl);
         t.op(&format!("fungible advance n={}", n));
         let st = if self.kind.fungible() { self.fstate() } else { "ret=-".to_string() };
         t.obs(&format!("ok {} now={} ev=- dem=- {}", st, self.now, self.extra()));
@@ -586,7 +593,9 @@ fn rand_fungible(rng: &mut Rng, s: &mut Sim, t: &mut Trace, kinds: &[&str], p: P
             let lu = match rng.below(10) {
                 0 => s.now.saturating_sub(1),
                 1 => s.now,
-                2 => s.now + MAX_TTL,
+                2 => s.now + s.max_ttl,
+                3 if s.max_ttl == LONG_TTL => s.now + 40 * DAY,
+                4 if s.max_ttl == LONG_TTL => s.now + 200 * DAY,
                 _ => s.now + 50 + rng.below(300) as u32,
             };
             let amt = if rng.chance(70) { rng.range(1, 2000) as i128 } else { pick_amount(rng, s, Some(o), Some(sp), p.cap) };
@@ -616,7 +625,7 @@ const BASE3: [&str; 3] = ["transfer", "transfer_from", "approve"];
 const CAP4: [&str; 6] = ["mint", "mint", "mint", "transfer", "transfer_from", "approve"];
 
 fn pp(owner: usize, mgr: usize, init: i128, cap: i128, ver: u8) -> Params {
-    Params { owner, mgr, init, cap, ver }
+    Params { owner, mgr, init, cap, ver, max_ttl: MAX_TTL }
 }
 
 // ---- directed scenarios --------------------------------------------------------------------
@@ -821,6 +830,161 @@ fn directed(t: &mut Trace) {
     }
 }
 
+
+// ---- long idle sequences -------------------------------------------------------------------
+// Every gate is set up, then the ledger moves by 1, 31 and 100 days WITHOUT any call in between
+// (long-horizon Env: max_entry_ttl of about a year, so the entries of the unmodified code stay
+// live); after each gap all getters are observed and the gated entry points are retried. A flag or
+// list entry that silently expires (e.g. moved to temporary storage) shows up here.
+
+const GAPS: [u32; 3] = [DAY, 31 * DAY, 100 * DAY];
+
+fn lp(owner: usize, mgr: usize, init: i128, cap: i128, ver: u8) -> Params {
+    Params { owner, mgr, init, cap, ver, max_ttl: LONG_TTL }
+}
+
+fn idle(t: &mut Trace) {
+    let far = 100 + 200 * DAY; // allowances that outlive all gaps (132 days in total)
+
+    // fungible-pausable: paused stays paused
+    let p = lp(0, 0, 1000, 0, 0);
+    t.seq(&Sim::label(Kind::PTok, p, 1, 100, "idle pausable token"));
+    let mut s = Sim::new(Kind::PTok, p, 1, 100);
+    s.exec(t, "mint", &[1], 500, 0, &[0]);
+    s.exec(t, "approve", &[1, 2], 300, far, &[1]);
+    s.gate(t, "pause", &[0], &[], &[0]);
+    for g in GAPS {
+        s.advance(t, g);
+        s.exec(t, "transfer", &[1, 3], 10, 0, &[1]);
+        s.exec(t, "transfer_from", &[2, 1, 3], 10, 0, &[2]);
+        s.exec(t, "burn", &[1], 5, 0, &[1]);
+        s.exec(t, "burn_from", &[2, 1], 5, 0, &[2]);
+        s.exec(t, "mint", &[1], 5, 0, &[0]);
+        s.gate(t, "pause", &[0], &[], &[0]);
+    }
+    s.gate(t, "unpause", &[0], &[], &[0]);
+    s.exec(t, "transfer", &[1, 3], 10, 0, &[1]);
+    s.exec(t, "transfer_from", &[2, 1, 3], 10, 0, &[2]);
+    s.advance(t, 31 * DAY);
+    s.exec(t, "transfer", &[1, 3], 10, 0, &[1]);
+    s.gate(t, "unpause", &[0], &[], &[0]);
+    s.gate(t, "pause", &[0], &[], &[0]);
+    s.advance(t, 31 * DAY);
+    s.exec(t, "burn", &[1], 5, 0, &[1]);
+
+    // pausable counter
+    let p = lp(2, 0, 0, 0, 0);
+    t.seq(&Sim::label(Kind::PCnt, p, 1, 100, "idle pausable counter"));
+    let mut s = Sim::new(Kind::PCnt, p, 1, 100);
+    s.gate(t, "increment", &[], &[], &[]);
+    s.gate(t, "pause", &[2], &[], &[2]);
+    for g in GAPS {
+        s.advance(t, g);
+        s.gate(t, "increment", &[], &[], &[]);
+        s.gate(t, "reset", &[], &[], &[]);
+        s.gate(t, "pause", &[2], &[], &[2]);
+    }
+    s.gate(t, "unpause", &[2], &[], &[2]);
+    s.gate(t, "increment", &[], &[], &[]);
+
+    // allow / block lists, library types and examples
+    for kind in [Kind::ALib, Kind::AEx, Kind::BLib, Kind::BEx] {
+        let p = lp(0, 1, 100_000, 0, 0);
+        let allowl = matches!(kind, Kind::ALib | Kind::AEx);
+        let lib = matches!(kind, Kind::ALib | Kind::BLib);
+        let burns = kind != Kind::BEx;
+        t.seq(&Sim::label(kind, p, 1, 100, "idle list"));
+        let mut s = Sim::new(kind, p, 1, 100);
+        let lst = |s: &mut Sim, t: &mut Trace, name: &str, u: usize| {
+            if lib {
+                s.gate(t, name, &[u], &[], &[]);
+            } else {
+                s.gate(t, name, &[u, 1], &[], &[1]);
+            }
+        };
+        if lib {
+            s.exec(t, "mint", &[0], 100_000, 0, &[]);
+        }
+        // parties 0, 1, 2, 3 take part; 3 ends up gated (disallowed resp. blocked), 4 never listed
+        if allowl {
+            for u in 0..4 {
+                lst(&mut s, t, "allow", u);
+            }
+        }
+        for u in 1..4 {
+            s.exec(t, "transfer", &[0, u], 1000, 0, &[0]);
+        }
+        s.exec(t, "approve", &[0, 1], 500, far, &[0]);
+        s.exec(t, "approve", &[3, 1], 500, far, &[3]);
+        s.exec(t, "approve", &[2, 3], 500, far, &[2]);
+        lst(&mut s, t, if allowl { "disallow" } else { "block" }, 3);
+        for g in GAPS {
+            s.advance(t, g);
+            // open parties still pass ...
+            s.exec(t, "transfer", &[0, 1], 5, 0, &[0]);
+            s.exec(t, "transfer_from", &[1, 0, 2], 5, 0, &[1]);
+            s.exec(t, "approve", &[2, 0], 7, far, &[2]);
+            if burns {
+                s.exec(t, "burn", &[2], 5, 0, &[2]);
+            }
+            // ... the gated party is still refused in every vetted position
+            s.exec(t, "transfer", &[3, 0], 5, 0, &[3]);
+            s.exec(t, "transfer", &[0, 3], 5, 0, &[0]);
+            s.exec(t, "transfer_from", &[1, 3, 0], 5, 0, &[1]);
+            s.exec(t, "transfer_from", &[1, 0, 3], 5, 0, &[1]);
+            s.exec(t, "approve", &[3, 0], 7, far, &[3]);
+            if burns {
+                s.exec(t, "burn", &[3], 5, 0, &[3]);
+                s.exec(t, "burn_from", &[1, 3], 5, 0, &[1]);
+            }
+            // spender 3 is not vetted
+            s.exec(t, "transfer_from", &[3, 2, 0], 5, 0, &[3]);
+        }
+        lst(&mut s, t, if allowl { "allow" } else { "unblock" }, 3);
+        s.exec(t, "transfer", &[3, 0], 5, 0, &[3]);
+        s.advance(t, 31 * DAY);
+        s.exec(t, "transfer", &[3, 0], 5, 0, &[3]);
+    }
+
+    // capped: the cap survives, mints near it
+    let p = lp(0, 0, 0, 1000, 0);
+    t.seq(&Sim::label(Kind::Cap, p, 1, 100, "idle cap"));
+    let mut s = Sim::new(Kind::Cap, p, 1, 100);
+    s.exec(t, "mint", &[1], 990, 0, &[]);
+    for (i, g) in GAPS.iter().enumerate() {
+        s.advance(t, *g);
+        s.exec(t, "mint", &[2], 11 - 4 * i as i128, 0, &[]); // one unit too many
+        s.exec(t, "mint", &[2], 4, 0, &[]);
+        s.exec(t, "mint", &[2], i128::MAX, 0, &[]);
+    }
+    s.exec(t, "mint", &[2], 1, 0, &[]);
+    s.exec(t, "mint", &[2], 0, 0, &[]);
+
+    // migration flag: armed stays armed, cleared stays cleared
+    for (ver, upgrade) in [(0u8, false), (0, true), (1, true)] {
+        let p = lp(3, 0, 0, 0, ver);
+        t.seq(&Sim::label(Kind::Mig, p, 1, 100, "idle migration"));
+        let mut s = Sim::new(Kind::Mig, p, 1, 100);
+        if upgrade {
+            s.gate(t, "upgrade", &[3], &[], &[3]);
+        } else {
+            s.gate(t, "enable", &[], &[], &[]);
+        }
+        for g in GAPS {
+            s.advance(t, g);
+            if !upgrade {
+                s.gate(t, "ensure", &[], &[], &[]);
+            }
+            s.gate(t, "migrate", &[1], &[1, 2], &[1]); // not the owner: refused, flag stays
+        }
+        s.gate(t, "migrate", &[3], &[3, 4], &[3]);
+        for g in GAPS {
+            s.advance(t, g);
+            s.gate(t, "migrate", &[3], &[5, 6], &[3]); // already completed: refused
+        }
+    }
+}
+
 // ---- generated sequences ---------------------------------------------------------------------
 
 fn rand_seq(rng: &mut Rng, t: &mut Trace, kind: Kind, k: u64, seed: u64, len: u64) {
@@ -837,7 +1001,12 @@ fn rand_seq(rng: &mut Rng, t: &mut Trace, kind: Kind, k: u64, seed: u64, len: u6
     };
     let init = if rng.chance(15) { 0 } else { rng.range(1, 100_000) as i128 };
     let ver = if kind == Kind::Mig && rng.chance(30) { 1 } else { 0 };
-    let p = pp(owner, mgr, init, cap, ver);
+    // a fifth of the sequences live in the long-horizon Env and contain day / month / 100-day gaps
+    let long = rng.chance(20);
+    let mut p = pp(owner, mgr, init, cap, ver);
+    if long {
+        p.max_ttl = LONG_TTL;
+    }
     t.seq(&Sim::label(kind, p, min_temp, start, &format!("rand k={} seed={}", k, seed)));
     let mut s = Sim::new(kind, p, min_temp, start);
     let pa = |rng: &mut Rng| rng.below(N as u64) as usize;
@@ -845,6 +1014,13 @@ fn rand_seq(rng: &mut Rng, t: &mut Trace, kind: Kind, k: u64, seed: u64, len: u6
     let upgrade_allowed = rng.chance(60) || ver == 1;
     for _ in 0..len {
         let r = rng.below(100);
+        if long && rng.chance(7) {
+            let n = *rng.pick(&GAPS);
+            if (s.now - start) as u64 + (n as u64) < 5_500_000 {
+                s.advance(t, n);
+            }
+            continue;
+        }
         if kind.fungible() && r < 3 {
             let n = *rng.pick(&[0u32, 1, 16, 100]);
             s.advance(t, n);
@@ -935,6 +1111,7 @@ fn main() {
     let len = arg_u64("--len", 40);
     let mut rng = Rng::new(seed);
     directed(&mut t);
+    idle(&mut t);
     let kinds = [Kind::PTok, Kind::PCnt, Kind::ALib, Kind::AEx, Kind::BLib, Kind::BEx, Kind::Cap, Kind::Mig];
     let mut k = 0;
     for _ in 0..per_kind {
